@@ -127,6 +127,26 @@ func runLockRulesP(c *Ctx, prop string, fnPred func(*ssa.Function) bool, ownerPr
 			orderGraph[e[0]][e[1]] = true
 		}
 		r1, r3 := 0, 0
+		// what a new helper does under its own lock is what its known callers do: findings are
+		// keyed by the caller (so a finding recorded against Publish still matches after Publish
+		// was reduced to a forwarder to a locked helper)
+		if isNewHelper(fn) {
+			var attributed []LockReport
+			for _, r := range reports {
+				owners := knownCallersOf(p, fn, 0, map[*ssa.Function]bool{})
+				if len(owners) == 0 {
+					attributed = append(attributed, r)
+					continue
+				}
+				for _, o := range owners {
+					r2 := r
+					r2.Construct = strings.Replace(r.Construct, FuncKey(fn), FuncKey(o), 1)
+					r2.Chain = append([]string{FuncKey(o)}, r.Chain...)
+					attributed = append(attributed, r2)
+				}
+			}
+			reports = attributed
+		}
 		for _, r := range reports {
 			switch r.Rule {
 			case "R1":
@@ -809,4 +829,34 @@ func goBodies(p *Program) map[*ssa.Function]bool {
 		}
 	}
 	return goBodiesMemo
+}
+
+// knownCallersOf: the functions of the reference table that (through new helpers only) call g.
+func knownCallersOf(p *Program, g *ssa.Function, depth int, seen map[*ssa.Function]bool) []*ssa.Function {
+	if depth > 4 || seen[g] {
+		return nil
+	}
+	seen[g] = true
+	var out []*ssa.Function
+	have := map[*ssa.Function]bool{}
+	for _, site := range p.callSitesOf(g) {
+		if !IsProd(site.Fn) {
+			continue
+		}
+		if isNewHelper(site.Fn) {
+			for _, o := range knownCallersOf(p, site.Fn, depth+1, seen) {
+				if !have[o] {
+					have[o] = true
+					out = append(out, o)
+				}
+			}
+			continue
+		}
+		if !have[site.Fn] {
+			have[site.Fn] = true
+			out = append(out, site.Fn)
+		}
+	}
+	sort.Slice(out, func(i, j int) bool { return FuncKey(out[i]) < FuncKey(out[j]) })
+	return out
 }
